@@ -1212,3 +1212,8 @@ Proof. intros ops Hw. apply membership_ids_reachable. apply ok_hist_of_w. exact 
 Lemma membership_cover_w : forall ops, ok_hist_w ops -> forall u g x, In x (gget (run ops) u g) ->
   (ufixed (run ops) u x = true \/ ugids (run ops) u x <> None) /\ pmux (run ops) x = Some u.
 Proof. intros ops Hw. apply membership_cover_reachable. apply ok_hist_of_w. exact Hw. Qed.
+
+(* A multiplexer's stored size is its group size plus the selector width (moved here from
+   Properties/C07.v, which may only `exact` lemmas). *)
+Lemma mux_size_proof : forall s u c g, kind s u = KMux c g -> sz s u = (g + selw c)%Z.
+Proof. intros s u c g H. unfold sz. rewrite H. reflexivity. Qed.
